@@ -545,6 +545,10 @@ def gen_e2e(rng: random.Random):
             code.append(rng.choice([f"const xAOD::Jet_v1 *typed{len(code)} = static_cast<const xAOD::Jet_v1 *>({mo});",
                                     f"auto k{len(code)} = xAOD::Jet_v1::kind({mo});",
                                     f"xAOD::Jet_v1 copy{len(code)}(*{mo});"]))
+        if rng.random() < 0.35:
+            # a statement that ENDS IN A CLOSING BRACE, sent without its semicolon: every supplied line is one terminated statement
+            code.append(rng.choice([f"double arr{len(code)}[2] = {{{args[0]}, 1.0}}", f"auto fn{len(code)} = [&](double q) {{ return q + {args[0]}; }}",
+                                    f"struct S{len(code)} {{ double v; }}"]))
         code.append("auto result = " + " + ".join(args) + (f" + {mo}->pt()" if mo and False else "") + ";")
         specs[name] = {"name": name, "includes": rng.sample(["a.h", "b.h"], rng.randint(0, 2)), "args": args, "code": code, "result": "result",
                        "rtype": ["double", 0, False], "is_coll": False, "method_obj": mo}
